@@ -23,7 +23,7 @@ type Case struct {
 // ---------- MergePatch ----------
 
 func drawMerge(t *rapid.T) Case {
-	c := gen.Default
+	c := gen.WithEmptyName
 	var doc *ref.V
 	if gen.OneIn(t, 4, "anyroot") {
 		doc = c.Value(3).Draw(t, "docv")
@@ -97,8 +97,8 @@ func checkMerge(c Case) ev.Verdict {
 
 // numbers spelled the way Go prints a float64
 var floatCfg = func() gen.Cfg {
-	c := gen.Default
-	c.Nums = []string{"0", "1", "-1", "2", "10", "1.5", "-3", "250", "0.1", "100", "9007199254740991", "-2.5", "1e+21", "1e-7", "123456789"}
+	c := gen.WithEmptyName
+	c.Nums = []string{"0", "1", "-1", "2", "10", "1.5", "-3", "250", "0.1", "100", "9007199254740991", "-2.5", "1e+21", "1e-7", "123456789", "1700000000", "1700000001", "9007199254740990"}
 	return c
 }()
 
@@ -198,7 +198,7 @@ func sprinkle(t *rapid.T, v *ref.V, label string) {
 }
 
 func drawCompose(t *rapid.T) Case {
-	c := gen.Default
+	c := gen.WithEmptyName
 	d := c.Value(3).Draw(t, "d")
 	if d.K == ref.KNull {
 		d = ref.Obj()
@@ -251,7 +251,7 @@ func checkCompose(c Case) ev.Verdict {
 // ---------- Equal ----------
 
 var plainStrCfg = func() gen.Cfg {
-	c := gen.Default
+	c := gen.WithEmptyName
 	c.Strs = []string{"", "a", "b", "x y", "é", "😀", " ", "hello", "/", "~", "<&>", "a&b"}
 	c.Keys = []string{"a", "b", "c", "d", "0", "1", "-1", "x/y", "m~n", "é", "k k", "-", "<&>"}
 	return c
